@@ -165,8 +165,8 @@ fn deromaniser_case(kind: usize, ws: &[CW], a: &mut Acc) {
 pub fn run() -> i32 {
     let mut r = Report::new("C15");
     let thorough = r.thorough();
-    r.rule = "romaniser sets of one line (thorough: every ordered pair of lines, and the comma-list form of each pair) over inputs {a, a:[+long], a:[+stress], a:[+secstress], a:[+stress, -secstress], V, V:[+stress], V:[-sec.stress], [+nasal], ta, $} x replacements {Q, QQ, *, a unicode escape, a named escape, +q, +@{macron}}; x 5 rule lists x every word of W(I5,3) with and without stress (long segments included): the printed word must equal the default rendering of the structural result rewritten by a reference romaniser, both through run() and through the renderer alone; every group letter with a parameter (each own feature repeated / flipped, four foreign features) as romaniser input on the 365 base phones against the bit model; deromanisers {Q > a, QQ > a:[+long], Z > ta, X > a:[+stress], S > a:[+secstress], Y > ta:[+long]n, W > a:[+long]t} on W(I5,4): run(R, encode(w), into=D) == run(R, w). Non-trivial = the alias rewrote the rendering.".into();
-    r.assumptions.push("`+` only on segments that are base phones (inventory p t a i n); no tone-matching aliases: the manual does not say what happens to the tones of unmatched syllables".into());
+    r.rule = "romaniser sets of one line (thorough: every ordered pair of lines, and the comma-list form of each pair) over inputs {a, a:[+long], a:[+stress], a:[+secstress], a:[+stress, -secstress], V, V:[+stress], V:[-sec.stress], [+nasal], ta, $} x replacements {Q, QQ, *, a unicode escape, a named escape, +q, +@{macron}}; x 5 rule lists x every word of W(I5,3) with and without stress (long segments included): the printed word must equal the default rendering of the structural result rewritten by a reference romaniser, both through run() and through the renderer alone; every group letter with a parameter (each own feature repeated / flipped, four foreign features) as romaniser input on the 365 base phones against the bit model; romaniser inputs `a`/`V` with a tone AND one of four length conditions on toned, stressed words (equal to the tone-only alias where the length condition holds, to the default rendering where it does not); deromanisers {Q > a, QQ > a:[+long], Z > ta, X > a:[+stress], S > a:[+secstress], Y > ta:[+long]n, W > a:[+long]t} on W(I5,4): run(R, encode(w), into=D) == run(R, w). Non-trivial = the alias rewrote the rendering.".into();
+    r.assumptions.push("`+` only on segments that are base phones (inventory p t a i n); tone-matching aliases only through a relation between alias variants (tone+length vs tone-only vs none): the manual does not say what happens to the tones of unmatched syllables".into());
     let ws = words(3, true);
     let pool = rom_pool();
     let mut single: Vec<(RIn, ROut)> = vec![];
@@ -225,20 +225,60 @@ pub fn run() -> i32 {
     }, |a| tg.merge(a));
     r.boxes.push(json!({"box": "group letters with a parameter as romaniser input x segment universe", "alias_lines": glines.len(), "segments": uni.len(), "comparisons": tg.evals, "rewritten": tg.rewritten, "unchanged": tg.same}));
     r.guard(tg.rewritten > 1000, "group romanisers rewrote more than 1000 segments");
+    // ---- romaniser inputs that carry BOTH a tone and a length condition: relation between alias variants (no model of tone printing
+    // needed): where every candidate segment (base match in a tone-5 syllable) meets the length condition the output equals that of the
+    // tone-only alias; where none does it equals the output without alias; mixed words are skipped
+    let tone_words: Vec<CW> = { let mut v = vec![]; for (k, w) in words(3, false).into_iter().enumerate() { for d in 0..2usize { let mut x = w.clone(); for (i, sy) in x.iter_mut().enumerate() { sy.tone = if (k + i + d) % 2 == 0 { 5 } else { [0, 51][(k / 2 + i) % 2] }; sy.stress = ((k / 3 + i) % 3) as u8; } v.push(x); } } v };
+    let lens: [(&str, fn(usize) -> bool); 4] = [("-long", |n| n == 1), ("+long", |n| n >= 2), ("+overlong", |n| n >= 3), ("-overlong", |n| n < 3)];
+    let mut tl_jobs: Vec<(&str, usize)> = vec![]; for b in ["a", "V"] { for li in 0..lens.len() { tl_jobs.push((b, li)); } }
+    let mut tt = Acc::default();
+    par_fold(tl_jobs.len(), 1, Acc::default, |i, a| {
+        let (base, li) = tl_jobs[i];
+        let full = vec![format!("{}:[{}, tone: 5] > X", base, lens[li].0)];
+        let tone_only = vec![format!("{}:[tone: 5] > X", base)];
+        let aseg = seg("a");
+        for w in &tone_words {
+            // candidate runs
+            let (mut yes, mut no) = (0, 0);
+            for sy in w { if sy.tone != 5 { continue; } let mut j = 0; while j < sy.segs.len() { let mut n = 1; while j + n < sy.segs.len() && sy.segs[j + n] == sy.segs[j] { n += 1; } if (base == "a" && sy.segs[j] == aseg) || (base == "V" && is_v(sy.segs[j])) { if (lens[li].1)(n) { yes += 1; } else { no += 1; } } j += n; } }
+            if yes > 0 && no > 0 { a.skipped += 1; continue; }
+            let text = av::render_word(&word_of(w), None);
+            let run = |al: &Vec<String>| guarded(500_000, || asca::run(&[], &[text.clone()], &[], al).map_err(|e| format!("{:?}", e)));
+            let got = run(&full);
+            // an alias with a length condition consumes the whole run of copies, the tone-only alias one copy: `Xː` there is `X` here
+            let collapse = |o: Out<Result<Vec<String>, String>>| match o { Out::Ok(Ok(v)) => Out::Ok(Ok(v.into_iter().map(|t| t.replace("Xːː", "X").replace("Xː", "X")).collect::<Vec<_>>())), x => x };
+            let want = if yes > 0 { collapse(run(&tone_only)) } else { run(&vec![]) };
+            a.evals += 1;
+            match (&got, &want) {
+                (Out::Ok(g), Out::Ok(x)) if g == x => { if yes > 0 { a.rewritten += 1; } else { a.same += 1; } }
+                (Out::Ok(g), Out::Ok(x)) => a.viols.push(Viol { key: format!("tone+length|{}|{}", full[0], text), desc: format!("romaniser `{}` on `{}` ({} candidate segment(s) meet the length condition, {} do not): printed {:?}, expected {:?} (= {})", full[0], text, yes, no, g, x, if yes > 0 { format!("what `{}` prints", tone_only[0]) } else { "the default rendering".into() }), case: json!({"kind": "tonelen", "full": full[0], "tone_only": tone_only[0], "word": text, "all_meet": yes > 0}) }),
+                _ => a.skipped += 1,
+            }
+        }
+    }, |a| tt.merge(a));
+    r.boxes.push(json!({"box": "romaniser inputs with a tone and a length condition vs the tone-only alias / no alias", "alias_lines": tl_jobs.len(), "words": tone_words.len(), "comparisons": tt.evals, "equal_to_tone_only_alias": tt.rewritten, "equal_to_default": tt.same, "skipped_mixed": tt.skipped}));
+    r.guard(tt.rewritten > 500 && tt.same > 500, "tone+length aliases: both sides of the relation occur more than 500 times");
     let wd = words(4, true);
     let mut td = Acc::default();
     par_fold(DEROM.len(), 1, Acc::default, |i, a| deromaniser_case(i, &wd, a), |a| td.merge(a));
     r.boxes.push(json!({"box": "deromanisers", "alias_sets": DEROM.len(), "words": wd.len(), "comparisons": td.evals, "both_ok": td.rewritten, "both_err": td.same, "skipped": td.skipped}));
     r.guard(td.rewritten > 1_000, "deromanisers: more than 1000 encoded words compared");
-    r.evaluations = tr.evals + td.evals + tg.evals; r.transitions = r.evaluations * 2; r.validated = tr.rewritten + tr.same + td.rewritten + td.same + tg.rewritten + tg.same; r.nontrivial = tr.rewritten + td.rewritten + tg.rewritten;
+    r.evaluations = tr.evals + td.evals + tg.evals + tt.evals; r.transitions = r.evaluations * 2; r.validated = tr.rewritten + tr.same + td.rewritten + td.same + tg.rewritten + tg.same + tt.rewritten + tt.same; r.nontrivial = tr.rewritten + td.rewritten + tg.rewritten + tt.rewritten;
     let mut outs = tr.outs.clone(); outs.extend(td.outs.iter()); r.states = outs;
     r.sample(json!({"romaniser": jobs[3].0, "word": show_cw(&ws[100]), "model": romanise(&ws[100], &jobs[3].1)}));
     r.sample(json!({"deromaniser": DEROM[3], "word": show_cw(&wd[wd.len() - 3]), "encoded": encode(3, &wd[wd.len() - 3])}));
-    for v in tr.viols.into_iter().chain(td.viols).chain(tg.viols) { r.viol(v); }
+    for v in tr.viols.into_iter().chain(td.viols).chain(tg.viols).chain(tt.viols) { r.viol(v); }
     r.finish()
 }
 
 pub fn replay(case: &Value) -> Result<String, String> {
+    if case["kind"].as_str() == Some("tonelen") {
+        let text = case["word"].as_str().unwrap_or("").to_string();
+        let run = |al: Vec<String>| guarded(500_000, || asca::run(&[], &[text.clone()], &[], &al).map_err(|e| format!("{:?}", e)));
+        let got = run(vec![case["full"].as_str().unwrap_or("").to_string()]);
+        let want = if case["all_meet"].as_bool().unwrap_or(false) { match run(vec![case["tone_only"].as_str().unwrap_or("").to_string()]) { Out::Ok(Ok(v)) => Out::Ok(Ok(v.into_iter().map(|t| t.replace("Xːː", "X").replace("Xː", "X")).collect::<Vec<_>>())), x => x } } else { run(vec![]) };
+        return match (got, want) { (Out::Ok(g), Out::Ok(x)) if g == x => Ok(format!("prints {:?} as expected", g)), (g, x) => Err(format!("printed {:?}, expected {:?}", g.crash_desc().or(None), x.crash_desc().or(None))) };
+    }
     if case["kind"].as_str() == Some("grom") {
             let (line, word, expect) = (case["line"].as_str().unwrap_or("").to_string(), case["word"].as_str().unwrap_or("").to_string(), case["expect"].as_str().unwrap_or(""));
             return match guarded(500_000, || asca::run(&[], &[word.clone()], &[], &[line.clone()]).map_err(|e| format!("{:?}", e))) { Out::Ok(Ok(v)) if v.len() == 1 && v[0] == expect => Ok(format!("`{}` prints `{}` as `{}`", line, word, expect)), Out::Ok(x) => Err(format!("romaniser `{}` on `{}`: expected `{}`, run printed {:?}", line, word, expect, x)), o => Err(o.crash_desc().unwrap()) };
